@@ -6,6 +6,7 @@ pub mod c05;
 pub mod c06;
 pub mod pp;
 pub mod c08;
+pub mod c10;
 pub mod c11;
 pub mod c12;
 pub mod c14;
@@ -15,7 +16,7 @@ pub mod c18;
 
 use crate::core::run::{Check, Tier};
 
-pub const ALL: &[&str] = &["C01", "C02", "C03", "C04", "C05", "C06", "C08", "C11", "C12", "C14", "C15", "C16", "C18"];
+pub const ALL: &[&str] = &["C01", "C02", "C03", "C04", "C05", "C06", "C08", "C10", "C11", "C12", "C14", "C15", "C16", "C18"];
 
 pub fn build(id: &str, tier: Tier) -> Option<Check<'static>> {
     Some(match id {
@@ -26,6 +27,7 @@ pub fn build(id: &str, tier: Tier) -> Option<Check<'static>> {
         "C08" => c08::build(tier),
         "C06" => c06::build(tier),
         "C11" => c11::build(tier),
+        "C10" => c10::build(tier),
         "C18" => c18::build(tier),
         "C03" => c03::build(tier),
         "C04" => c04::build(tier),
